@@ -21,7 +21,8 @@ def mkjob(rng, kind):
         s = rng.choice([0, 120, 200, 333])
         return dict(kind=kind, text=t, w=s, h=s)
     if kind == "dm":
-        t = "".join(rng.choice("ABCDEFGHIJKLMNOPQRSTUVWXYZ0123456789 abcdef") for _ in range(rng.randint(3, 120)))
+        # sizes from one block up to several interleaved Reed-Solomon blocks (52x52 and larger need > 174 codewords)
+        t = "".join(rng.choice("ABCDEFGHIJKLMNOPQRSTUVWXYZ0123456789 abcdef") for _ in range(rng.choice([rng.randint(3, 120), rng.randint(260, 700), rng.randint(700, 1100)])))
         s = rng.choice([0, 150, 240])
         return dict(kind=kind, text=t, w=s, h=s)
     w, h = rng.choice([(0, 30), (300, 40), (411, 25)])
@@ -42,6 +43,25 @@ def mkjob(rng, kind):
     return dict(kind=kind, text="".join(rng.choice("ABCDEFGHIJKLMNOPQRSTUVWXYZ0123456789abcdefxyz-./") for _ in range(rng.randint(2, 24))), w=w, h=h)
 
 
+def addon_jobs(ctx, rng, n):
+    """EAN/UPC symbols carrying 2- and 5-digit add-ons, built by TLC from the standard's tables (spec/OneD.tla via Gen_Check):
+    the add-on decoders have scratch state of their own that only such symbols exercise"""
+    recs = []
+    for i in range(n):
+        sym = ["EAN13", "UPCA", "EAN8"][i % 3]
+        p = [rng.randrange(10) for _ in range({"EAN13": 12, "UPCA": 11, "EAN8": 7}[sym])]
+        if i % 2:
+            v = rng.randrange(100)
+            recs.append(dict(sym=sym, p=p, ad=[v // 10, v % 10], ap=[(v % 4) >> 1, (v % 4) & 1]))
+        else:
+            recs.append(dict(sym=sym, p=p, ad=[rng.randrange(10) for _ in range(5)], ap=[rng.randrange(2) for _ in range(5)]))
+    res = vlib.run_tlc(ctx, "MC_Check", "Gen_Check", files={"seeds.ndjson": recs}, workers=2, timeout=900, consts={"Stride": "1000"})
+    out = [c for lst in vlib.tlc_printed(res) for c in lst if c.get("pos") == 0]
+    if len(out) < n:
+        raise vlib.Infra("Gen_Check returned %d add-on symbols for %d seeds" % (len(out), n))
+    return [dict(kind="runs", text="", w=0, h=0, sym=("MULTI" if i % 4 == 3 else c["sym"]), runs=c["runs"], q=12, scale=2 + i % 2) for i, c in enumerate(out)]
+
+
 def design_check(ctx):
     res = vlib.run_tlc(ctx, "Conc", "MC_Conc" if ctx.quick else "MC_Conc3", workers=vlib.NCPU, timeout=1800)
     ctx.note("Conc.tla: %d states, all interleavings of %s goroutines x programs of 1-2 operations: NoRace, NoRunPhaseWrite, Deterministic hold" % (
@@ -60,21 +80,23 @@ def run(ctx, inputs=None, label="concurrent run"):
         rng = random.Random(ctx.seed * 977 + 5)
         inputs = []
         plan = [(2, 2), (8, 4), (8, 16), (3, 2)] if ctx.quick else [(2, 2), (4, 4), (8, 16), (16, 16), (32, 8), (64, 16), (3, 3), (8, 2)] * 3
+        addons = addon_jobs(ctx, rng, 8 if ctx.quick else 24)
         for (k, procs) in plan:
-            jobs = [mkjob(rng, KINDS[i % len(KINDS)]) for i in range(39 if ctx.quick else 78)]
+            jobs = [mkjob(rng, KINDS[i % len(KINDS)]) for i in range(39 if ctx.quick else 78)] + addons + [mkjob(rng, "dm") for _ in range(6)]
             inputs.append(dict(op="round", k=k, rounds=4 if ctx.quick else 12, procs=procs, seed=rng.randrange(1 << 30), jobs=jobs, share=0))
-    logdir = ctx.dir("race")
-    obs = vlib.drive(ctx, "c18", inputs, race=True, timeout=3000, env={"GORACE": "log_path=%s/race halt_on_error=0 exitcode=0" % logdir})
-    reports = 0
-    first = ""
-    for f in glob.glob(os.path.join(logdir, "race*")):
-        s = open(f, errors="replace").read()
-        reports += s.count("WARNING: DATA RACE")
-        if not first and "WARNING: DATA RACE" in s:
-            first = s[s.index("WARNING: DATA RACE"):][:3000]
-    # the race log is per process, not per round: attribute the reports to the run as a whole (first event carries the count)
-    for i, o in enumerate(obs):
-        o["races"] = reports if i == 0 else 0
+    # one fresh process per run: shared state that only races while it is cold must meet the goroutines before anything warmed it up
+    obs, first = [], ""
+    for inp in inputs:
+        logdir = ctx.dir("race")
+        o = vlib.drive(ctx, "c18", [inp], race=True, timeout=3000, env={"GORACE": "log_path=%s/race halt_on_error=0 exitcode=0" % logdir})[0]
+        reports = 0
+        for f in glob.glob(os.path.join(logdir, "race*")):
+            s = open(f, errors="replace").read()
+            reports += s.count("WARNING: DATA RACE")
+            if not first and "WARNING: DATA RACE" in s:
+                first = s[s.index("WARNING: DATA RACE"):][:3000]
+        o["races"] = reports
+        obs.append(o)
     bad = vlib.validate(ctx, "Trace_Conc", obs, shards=1)
     ctx.traces += len(obs)
     names = ["no panic", "every cache / scratch object touched by one goroutine", "no write to package-level state",
